@@ -1,6 +1,6 @@
 (* C07 -- property theorems only.  Proofs live in C07/Proofs*.v. *)
 From Coq Require Import NArith List Bool Arith.
-From DV Require Import Base.Outcome Base.Bytes C07.Gen C07.Model C07.Proofs C07.Proofs2 C07.Proofs3 C07.Proofs4 C07.Proofs5 C07.Proofs6 C07.Proofs7 C07.Proofs8 C07.Proofs9 C07.Proofs10 C07.Proofs11.
+From DV Require Import Base.Outcome Base.Bytes C07.Gen C07.Model C07.Proofs C07.Proofs2 C07.Proofs3 C07.Proofs4 C07.Proofs5 C07.Proofs6 C07.Proofs7 C07.Proofs8 C07.Proofs9 C07.Proofs10 C07.Proofs11 C07.Proofs12.
 Import ListNotations.
 Local Open Scope N_scope.
 
@@ -552,3 +552,26 @@ Print Assumptions C07_scan_bitmap_protocol.
 Theorem C07_load_copies_octets : load_copies_octets = true.
 Proof. exact load_copies. Qed.
 Print Assumptions C07_load_copies_octets.
+
+Theorem C07_scan_octets_plain_value : forall s tok d t r s2,
+  scat s = CUnq -> rest s = tok ++ d :: t -> plain tok ->
+  is_delim d = true -> d < 128 -> d <> esc_char ->
+  scan_octets s = Ok (r, s2) -> r = tok.
+Proof. exact scan_octets_plain_value. Qed.
+Print Assumptions C07_scan_octets_plain_value.
+
+Theorem C07_write_loop_value : forall syms l l', Toks false l syms l' ->
+  forall octs fuel s w s' w', octets_of syms octs -> scat s = CUnq -> rest s = l -> (w <= start s)%nat ->
+  write_loop into_octet fuel s w = Ok (s', w') ->
+  w' = (w + length octs)%nat /\ firstn w' (buf s') = firstn w (buf s) ++ octs /\ rest s' = l' /\
+  scat s' = CNone /\ (w' <= start s')%nat.
+Proof. exact write_loop_value. Qed.
+Print Assumptions C07_write_loop_value.
+
+Theorem C07_scan_octets_value : forall s p q syms octs d t r s2,
+  scat s = CUnq -> rest s = p ++ q -> plain p ->
+  (exists c q', q = c :: q' /\ asc_unq_ok c = false) ->
+  Toks false q syms (d :: t) -> octets_of syms octs ->
+  scan_octets s = Ok (r, s2) -> r = p ++ octs.
+Proof. exact scan_octets_value. Qed.
+Print Assumptions C07_scan_octets_value.
